@@ -181,6 +181,47 @@ async fn run(name: &str) -> Result<(), String> {
             let _ = std::fs::remove_dir_all(&dir);
             if done.is_err() { Err("main task still running 10 s after a handler deleted its job and asked for a graceful quit (grace 1 s)".into()) } else { Ok(()) }
         }
+        // C08 (D20): a handler that asks for the job of one id twice within ONE action gets the same job both times; nothing it started survives the quit
+        "same_id_twice_in_one_action_is_one_job" => {
+            use watchexec::command::{Command, Program, Shell};
+            use watchexec_signals::Signal;
+            let n = Arc::new(AtomicUsize::new(0));
+            let n2 = n.clone();
+            let id = watchexec::Id::default();
+            let pidfile = dir.join("pids");
+            let pf = pidfile.clone();
+            let kept: Arc<std::sync::Mutex<Vec<watchexec::job::Job>>> = Default::default();
+            let kept2 = kept.clone();
+            let wx = Watchexec::new(move |mut action| {
+                if n2.fetch_add(1, Ordering::SeqCst) == 0 {
+                    let script = format!("echo $$ >> {}; exec sleep 600", pf.display());
+                    let cmd = Arc::new(Command { program: Program::Shell { shell: Shell::new("sh"), command: script.into(), args: Vec::new() }, options: Default::default() });
+                    let c1 = cmd.clone();
+                    let job = action.get_or_create_job(id, move || c1.clone());
+                    job.start();
+                    kept2.lock().unwrap().push(job);
+                    let job2 = action.get_or_create_job(id, move || cmd.clone());
+                    job2.start();
+                } else {
+                    action.quit_gracefully(Signal::Terminate, Duration::from_millis(1000));
+                }
+                action
+            }).map_err(|e| e.to_string())?;
+            let main = wx.main();
+            wx.send_event(watchexec_events::Event::default(), watchexec_events::Priority::Urgent).await.map_err(|e| e.to_string())?;
+            tokio::time::sleep(Duration::from_millis(700)).await;
+            wx.send_event(watchexec_events::Event::default(), watchexec_events::Priority::Urgent).await.map_err(|e| e.to_string())?;
+            let done = tokio::time::timeout(Duration::from_secs(10), main).await;
+            tokio::time::sleep(Duration::from_millis(300)).await;
+            let pids: Vec<String> = std::fs::read_to_string(&pidfile).unwrap_or_default().lines().map(|l| l.trim().to_string()).filter(|l| !l.is_empty()).collect();
+            let alive: Vec<String> = pids.iter().filter(|p| std::fs::read_to_string(format!("/proc/{p}/stat")).map(|st| !st.contains(") Z ") && !st.contains(") X ")).unwrap_or(false)).cloned().collect();
+            for p in &alive { let _ = std::process::Command::new("kill").arg("-9").arg(p).status(); }
+            drop(kept);
+            let _ = std::fs::remove_dir_all(&dir);
+            if done.is_err() { return Err("main task still running 10 s after the graceful quit".into()); }
+            if !alive.is_empty() { return Err(format!("get_or_create_job(id) twice in one action, both started, then a graceful quit: {} process(es) started ({pids:?}), still alive after the shutdown: {alive:?}", pids.len())); }
+            Ok(())
+        }
         // C01 / C02 / C15 (BOUNDED: 3 seeded streams of 80 events, every priority, pass / reject / error verdicts, empty events, gaps from 0 to 2 x throttle):
         // each accepted (or urgent, or empty) event reaches the action handler in exactly one batch, no rejected one does, no batch is empty, a batch
         // without an urgent event is not delivered before the throttle has passed since its earliest event was sent, and each filter error reaches
